@@ -274,8 +274,9 @@ def make_on_log():
 
 # ------------------------------------------------------------------------------------------------ level 1 world
 class PoolWorld:
-    def __init__(self, nb: int, rounds: int, max_idle: int, reaper: bool = True, closer: bool = True, rng=None) -> None:
-        self.nb, self.rounds, self.max_idle = nb, rounds, max_idle
+    def __init__(self, nb: int, rounds: int, max_idle: int, reaper: bool = True, closer: bool = True, rng=None,
+                 nkeys: int = 1) -> None:
+        self.nb, self.rounds, self.max_idle, self.nkeys = nb, rounds, max_idle, nkeys
         self.with_reaper, self.with_closer = reaper, closer
         self.rng = rng
         self.sched = Scheduler(step_timeout=30.0)
@@ -464,7 +465,7 @@ class PoolWorld:
         on_log, arm = make_on_log()
         for _ in range(self.rounds):
             try:
-                with self.pool.connect(PoolSvc, CMD, on_log=on_log) as svc:
+                with self.pool.connect(PoolSvc, CMD + [f"key{(b - 1) % self.nkeys + 1}"], on_log=on_log) as svc:
                     tr = svc._transport._inner
                     self.held[b - 1] = tr.id
                     self._mon("Handout", b=b, w=tr.id, ok=tr.proc.poll() is None)
@@ -507,7 +508,8 @@ class PoolWorld:
         self.mon.append({"e": e, "b": 0, "w": 0, "ok": True, "n": 0, "m": self.max_idle, "why": "", **k})
 
     def observe(self) -> dict:
-        idle = [e.transport.id for dq in self.pool._idle.values() for e in dq]
+        idle = [e.transport.id for e in sorted((e for dq in self.pool._idle.values() for e in dq),
+                                               key=lambda e: e.returned_at)]         # global return order
         iset = set(idle)
         return {"idle": idle, "act": self.pool._active, "cl": bool(self.pool._closed),
                 "ws": ["closed" if t.closed else ("idle" if t.id in iset else "held") for t in self.workers],
@@ -551,7 +553,7 @@ class PoolWorld:
         return self._ev("Die", wid)
 
     def header(self) -> dict:
-        return {"mi": self.max_idle, "rounds": self.rounds, "rpc0": "wait" if self.with_reaper else "off",
+        return {"mi": self.max_idle, "rounds": self.rounds, "nkeys": self.nkeys, "rpc0": "wait" if self.with_reaper else "off",
                 "cpc0": "start" if self.with_closer else "off"}
 
     def enabled_ops(self, max_clock: int, deaths_left: int) -> list[tuple]:
@@ -620,7 +622,7 @@ def _expected_label(b: dict, nb: int) -> str:
 def run_path(behaviour: list[dict], init_state: dict, nb: int, rng) -> dict:
     drift = None
     with PoolWorld(nb, init_state["nRounds"], init_state["maxIdle"], reaper=init_state["rpc"] != "off",
-                   closer=init_state["cpc"] != "off", rng=rng) as w:
+                   closer=init_state["cpc"] != "off", rng=rng, nkeys=init_state["nKeys"]) as w:
         for i, b in enumerate(behaviour):
             try:
                 ev = apply(w, b["action"], b["args"])
@@ -641,8 +643,8 @@ def run_path(behaviour: list[dict], init_state: dict, nb: int, rng) -> dict:
 
 
 def run_random(rng, nb: int, rounds: int, max_idle: int, reaper: bool, closer: bool, max_clock: int = 2,
-               deaths: int = 1, max_steps: int = 120) -> dict:
-    with PoolWorld(nb, rounds, max_idle, reaper=reaper, closer=closer, rng=rng) as w:
+               deaths: int = 1, max_steps: int = 120, nkeys: int = 1) -> dict:
+    with PoolWorld(nb, rounds, max_idle, reaper=reaper, closer=closer, rng=rng, nkeys=nkeys) as w:
         left = deaths
         for _ in range(max_steps):
             ops = w.enabled_ops(max_clock, left)
